@@ -153,6 +153,24 @@ def run_shards(worker, prop, tier, seed, nshards, outdir, limit, extra_env=None,
     return res
 
 
+def count_distinct(worker, outdir):
+    """Distinct case hashes over all shards (counted by the worker binary: sorting a []uint64 is cheap,
+    a Python set of tens of millions of entries is not). Falls back to a Python set."""
+    try:
+        env = goenv(); env.pop("GOFLAGS", None)
+        p = subprocess.run([worker, "-count-distinct", outdir], stdout=subprocess.PIPE, stderr=subprocess.PIPE, text=True, env=env, timeout=900)
+        if p.returncode == 0:
+            return int(p.stdout.strip())
+    except Exception:
+        pass
+    distinct = set()
+    for dp in glob.glob(os.path.join(outdir, "distinct-*.bin")):
+        b = open(dp, "rb").read()
+        for k in range(0, len(b), 8):
+            distinct.add(b[k:k + 8])
+    return len(distinct)
+
+
 def replay_case(worker, prop, tier, seed, job, index, limit=150):
     outdir = os.path.join(OUT, f"replay-{prop}-{os.getpid()}")
     shutil.rmtree(outdir, ignore_errors=True)
@@ -221,11 +239,6 @@ def check(prop, tier, seed, nshards):
             if os.path.exists(sp):
                 s = json.load(open(sp))
                 merge(merged, s)
-                dp = os.path.join(outdir, f"distinct-{i}.bin")
-                if os.path.exists(dp):
-                    b = open(dp, "rb").read()
-                    for k in range(0, len(b), 8):
-                        distinct.add(b[k:k + 8])
                 continue
             # shard died: find the culprit
             pend = read_pending(os.path.join(outdir, f"pending-{i}.bin"))
@@ -271,7 +284,7 @@ def check(prop, tier, seed, nshards):
         if brace:
             race_reports += collect_races(outdir, prop, seed, tier, merged)
 
-    merged["distinct"] = len(distinct)
+    merged["distinct"] = count_distinct(worker, outdir)
     merged["extra"]["race_reports"] = race_reports if any(b for _, b in builds) else None
 
     # floors (evaluated over the merged run)
